@@ -421,6 +421,108 @@ def run_regions(ck, pid):
         ck.extra.setdefault("input_distribution", {})["critical_sections"] = {"regions": int(nrg.group(1)), "accesses_outside_regions": int(nrg.group(2))}
 
 
+def run_promise(ck, pid):
+    """writer/utils/promise at the grain of its synchronisation operations (model/PromiseHB.v, proofs/PromiseHBProofs.v promise_completion_is_atomic):
+    translate/gen_c01_promise regenerates the micro-operation programs of Done / Get / GetCtx; they must pass the syntactic happens-before check hb_ok
+    (every read of res / err ordered after the stores of Done by the close of / receive from the channel) and be the programs of the model; and the real
+    promise is hammered from many goroutines (harness/cmd/promstress), plain and under the race detector."""
+    import vcheck
+    here = os.path.dirname(os.path.dirname(__file__))
+    env = dict(os.environ, VERIF_REPO=vcheck.REPO)
+    env.update({k: v for k, v in vcheck.go_env().items() if k in ("GOCACHE",)})
+    outp = os.path.join(ck.work, "GenC01Promise.v")
+    rc, o = vcheck.sh([os.path.join(here, "translate", "gen_c01_promise"), outp], env=env, timeout=300)
+    ck.checker_cmds.append("translate/gen_c01_promise")
+    gen = open(outp).read() if rc == 0 and os.path.exists(outp) else ""
+    ck.obligation("translator gen_c01_promise ran on %s/writer/utils/promise" % vcheck.REPO, rc == 0 and bool(gen), o[-1500:])
+    hb_bad = False
+    flat = ""
+    if gen:
+        okm, o = ck.coq_make(["model/PromiseHB.vo"])
+        if not okm:
+            ck.obligation("model/PromiseHB.v compiles", False, o[-1500:])
+            return
+        txt = (gen + "\nDefinition HB := Eval vm_compute in gen_hb_ok gen_promise_methods.\nPrint HB.\n"
+               "Definition UR := Eval vm_compute in gen_unordered gen_promise_methods.\nPrint UR.\n"
+               "Definition SAMEM := Eval vm_compute in methods_eqb gen_promise_methods methods_model.\nPrint SAMEM.\n"
+               "Definition SAMEC := Eval vm_compute in ctors_eqb gen_promise_ctors ctors_model.\nPrint SAMEC.\n")
+        rc, o = ck.coq_eval("%s_promise" % pid, txt)
+        flat = " ".join(o.split())
+        if rc != 0:
+            ck.obligation("regenerated promise programs evaluated inside Coq", False, o[-1500:])
+            return
+
+        def val(name):
+            m = re.search(r"\b%s = (.*?) : " % name, flat)
+            return m.group(1).strip() if m else "?"
+        hb_bad = val("HB") != "true"
+        ck.obligation("happens-before, computed from the source of promise.go: Done = the winning CAS, then only stores of plain fields, then close(lock); every other method reads "
+                      "res / err only after a receive on lock (an atomic load of `pending` orders nothing: the stores come after the CAS) -- hb_ok, the hypothesis of "
+                      "promise_completion_is_atomic", not hb_bad, "hb_ok = %s; reads no channel operation orders after Done's stores (method, fields): %s" % (val("HB"), val("UR")))
+        ck.obligation("the regenerated micro-operation programs of Done / Get / GetCtx and the constructors New / Fulfilled are the ones of model/PromiseHB.v (methods_model, ctors_model)",
+                      val("SAMEM") == "true" and val("SAMEC") == "true", "methods_eqb = %s, ctors_eqb = %s" % (val("SAMEM"), val("SAMEC")))
+        if hb_bad or val("SAMEM") != "true" or val("SAMEC") != "true":
+            ck.violation({"property": pid, "kind": "a method of writer/utils/promise reads the result of a promise without a happens-before edge from Done's stores (or the promise is not the one modelled)",
+                          "explanation": "model/PushHandler.v takes the completion of a promise as ONE step; proofs/PromiseHBProofs.v promise_completion_is_atomic proves that for programs passing hb_ok: "
+                                         "whatever the interleaving, a getter returns the arguments of the ONE winning Done.  Done flips `pending` by CAS BEFORE it stores res / err; a read of res / err that is "
+                                         "ordered only after an atomic load of `pending` can see the zero values (0, nil) = success with 0 rows for an INSERT that failed, or a torn pair "
+                                         "(fast_path_refuted, fast_path_torn_pair).  The interleaving class: Done's CAS; the getter's load + reads; Done's stores.  The stress below looks for a failing run.",
+                          "hb_ok": val("HB"), "unordered_reads": val("UR"), "methods_equal_model": val("SAMEM"), "ctors_equal_model": val("SAMEC"),
+                          "generated": gen[gen.find("Definition gen_promise_methods"):][:3000],
+                          "replay": "translate/gen_c01_promise /dev/stdout; compare with done_model / get_model / getctx_model in coq/model/PromiseHB.v"}, no_input=True)
+        ck.extra.setdefault("input_distribution", {})["promise_programs"] = {"hb_ok": val("HB"), "methods_equal_model": val("SAMEM"), "ctors_equal_model": val("SAMEC")}
+    # ---- the dynamic side: the real promise under concurrent Done / Get / GetCtx
+    if not ck.go_build("promstress"):
+        ck.obligation("harness promstress builds against the repository", False, getattr(ck, "build_out", "")[-1500:])
+        return
+    n = ck.n(6000, 400000)
+    outj = os.path.join(ck.work, "promstress.jsonl")
+    rc, o = ck.go_run("promstress", ["--seed", ck.seed, "--n", n, "--out", outj], timeout=1200)
+    res = [json.loads(l) for l in open(outj)] if rc == 0 and os.path.exists(outj) else []
+    ck.obligation("promise stress ran (patterns pair / fanout / poll / twice / late)", rc == 0 and len(res) == 5, o[-1500:])
+    bad = [r for r in res if r.get("bad")]
+    ck.obligation("promise stress: every Get / GetCtx returned exactly the (res, err) of the Done call that won, %d Get calls racing %d Done rounds on the real promise" %
+                  (sum(r["gets"] for r in res), sum(r["rounds"] for r in res)), not bad,
+                  "; ".join("%s: %d of %d gets wrong, first %s" % (r["pattern"], r["bad"], r["gets"], json.dumps(r.get("first_bad"))) for r in bad)[:1500])
+    # the same under the race detector (needs cgo; a tree where it cannot be built is reported, not failed)
+    race = {"available": False}
+    with vcheck.Lock("gomod"):
+        vcheck.ensure_harness_module()
+    rbin = vcheck.bin_path("promstress_race")
+    t0 = time.time()
+    rcb, ob = vcheck.sh(["go", "build", "-race", "-modfile=" + vcheck.modfile(), "-tags", "verif", "-o", rbin, "./cmd/promstress"], cwd=vcheck.HARNESS, env=vcheck.go_env(), timeout=1200)
+    ck.log("go build -race promstress rc=%d (%.1fs)" % (rcb, time.time() - t0))
+    races = []
+    if rcb == 0:
+        race["available"] = True
+        outr = os.path.join(ck.work, "promstress_race.jsonl")
+        e = vcheck.go_env()
+        e["GORACE"] = "halt_on_error=0 exitcode=0"
+        rcr, orr = vcheck.sh([rbin, "--seed", str(ck.seed), "--n", str(ck.n(1500, 60000)), "--out", outr], cwd=ck.work, env=e, timeout=1200)
+        races = re.findall(r"WARNING: DATA RACE.*?(?==================|\Z)", orr, re.S)
+        race["reports"] = len(races)
+        rres = [json.loads(l) for l in open(outr)] if os.path.exists(outr) else []
+        race["gets"] = sum(r["gets"] for r in rres)
+        ck.obligation("promise stress under the Go race detector (go build -race): no read of res / err races with Done's stores", rcr == 0 and not races and len(rres) == 5,
+                      (races[0] if races else orr)[-2500:])
+    else:
+        ck.trusted.append("C01: the race detector could not be built in this sandbox (go build -race needs cgo): the promise stress ran without it")
+    if bad or races:
+        w = min(bad, key=lambda r: r["rounds"]) if bad else None
+        ck.violation({"property": pid, "kind": "a Get on the real promise returned something else than the (res, err) of the Done call that completed it",
+                      "explanation": "C01: doPush reads the outcome of a sub-push with reqPromise.Get(); releaseWaiting completes the promises of a failed INSERT with Done(0, err).  "
+                                     "A Get that returns (0, nil) makes doPush (and so the handler) report success for rows no successful INSERT contained.  "
+                                     "Interleaving class: Done's CompareAndSwap on `pending`; the getter's atomic load of `pending` and its reads of res / err; Done's stores of res / err; close(lock).",
+                      "failing_run": w, "all_patterns": res, "race_detector_reports": len(races), "first_race_report": (races[0][:3000] if races else None),
+                      "replay": "harness promstress --n %d (the pattern of failing_run; each round: goroutines released together by a spinning barrier, one promise.New(), Done(v, err) racing Get())" % n})
+    ck.coverage["rule"] += ("Promise stress (not counted in evaluations): 5 interleaving patterns of Done / Get / GetCtx on one fresh promise.New() per round (one Done racing one Get; racing three Gets; racing a getter polling "
+                            "GetCtx with a cancelled context; two Done calls with different arguments racing two Gets; Get after Done), goroutines released together by a spinning barrier; "
+                            "every Get result is compared with the arguments of the winning Done. ")
+    ck.extra.setdefault("input_distribution", {})["promise_stress"] = {"patterns": {r["pattern"]: {"rounds": r["rounds"], "gets": r["gets"], "wrong": r["bad"]} for r in res},
+                                                                        "race_detector": race}
+    ck.add_samples([{"promise_stress": r} for r in res[:2]], limit=8)
+
+
 def run_bridge(ck, pid):
     """C02, parser_output_wf: the append programs of onSpan / onEntries regenerated by C05's translator and the column tables of
     the six ProcessRequest closures regenerated by translate/gen_c02_columns must pass bridge_ok / columns_ok / details_ok of
@@ -457,6 +559,9 @@ def run_bridge(ck, pid):
            "Definition UNK := Eval vm_compute in (gen_on_span_unknown, ep_unknown gen_on_entries_cols).\nPrint UNK.\n"
            "Definition COK := Eval vm_compute in columns_ok gen_c02_columns.\nPrint COK.\n"
            "Definition DOK := Eval vm_compute in details_ok gen_c02_columns gen_c02_details.\nPrint DOK.\n"
+           "Definition LOK := Eval vm_compute in loops_ok gen_c02_columns gen_c02_loops.\nPrint LOK.\n"
+           "Definition LBAD := Eval vm_compute in flat_map (fun sl : string * list loop_t * Z => let '(s, loops, g) := sl in List.app (if Z.eqb g 0 then nil else cons (s, \"guarded appends / exits between appends\"%string, @nil string, g) nil) "
+           "(map (fun l : loop_t => (s, fst (fst l), snd (fst l), snd l)) (filter (fun l : loop_t => negb (Z.eqb (snd l) 0)) loops))) gen_c02_loops.\nPrint LBAD.\n"
            "Definition AGR := Eval vm_compute in consumed_agree gen_spans_consumed gen_attrs_consumed gen_spl_consumed gen_tsd_consumed.\nPrint AGR.\n"
            "Definition SAME := Eval vm_compute in (strs_eqb gen_spans_fields spans_fields_model && strs_eqb gen_attrs_fields attrs_fields_model\n"
            "  && strs_eqb gen_spl_fields spl_fields_model && strs_eqb gen_tsd_fields tsd_fields_model\n"
@@ -482,6 +587,11 @@ def run_bridge(ck, pid):
                   "TimeSeriesData appended exactly once per row, flush resets the batch, every field a ProcessRequest closure reads exists, no statement "
                   "the translator did not understand): the hypothesis of checked_parsers_give_good_blocks", ok_b, "bridge_ok = %s, unknown statements = %s" % (val("BOK"), val("UNK")))
     ok_c = val("COK") == "true" and val("DOK") == "true"
+    ok_l = val("LOK") == "true"
+    ck.obligation("the loops of the six ProcessRequest closures, regenerated from the source, append like the model's eff (loops_ok: every range loop that appends has a straight-line body -- "
+                  "no continue / break / return / if, so every iteration appends to every column of the loop --, no append is guarded by anything else, nothing leaves the closure between its "
+                  "first and its last append, and every column receives one value per element of the field eff counts for it): hypothesis of checked_loops_append_like_eff", ok_l,
+                  "loops_ok = %s; offending (service, ranged field, columns, control statements): %s" % (val("LOK"), val("LBAD")))
     ck.obligation("the INSERT columns regenerated from the six ProcessRequest closures (serialize()/toIFace() order, request field appended per column, key column, "
                   "single-element appends) are kind_fields / keycol / prof_assigned of the model", ok_c, "columns_ok = %s, details_ok = %s" % (val("COK"), val("DOK")))
     ck.obligation("the fields C05's translator saw the span / log services read are the fields of the regenerated column tables (two translators agree)",
@@ -491,6 +601,15 @@ def run_bridge(ck, pid):
     ck.obligation("FixedString widths: the regenerated onSpan starts with the 16 / 8 byte width check and is the only place under writer/ that appends to a trace-id / span-id "
                   "slice of a request struct (hypotheses of parser_span_requests_never_reach_the_width_panic / regenerated_on_span_appends_only_fixed_widths)",
                   val("WID") == "true", "WID = %s" % val("WID"))
+    if not ok_l:
+        m3 = re.search(r"Definition gen_c02_loops.*?\n\]\.", gen1, re.S)
+        ck.violation({"property": pid, "kind": "a ProcessRequest closure appends a different number of values to different columns for some requests",
+                      "explanation": "model/Ingest.v eff appends to every column one value per element of a request field (proofs/IngestLoops.v checked_loops_append_like_eff, for closures passing "
+                                     "loops_ok).  The regenerated loop table fails loops_ok: a loop that appends to some columns skips or ends iterations (continue / break / return / if in its body) "
+                                     "while the loops of the other columns do not, or an append is guarded: a request that takes that branch makes the block non-rectangular and shifts every row "
+                                     "appended behind it, the other requests' rows included.  The dynamic levels below search the request that takes the branch.",
+                      "loops_ok": val("LOK"), "offending_loops": val("LBAD"), "generated_loops": (m3.group(0) if m3 else "")[:3000],
+                      "replay": "translate/gen_c02_columns /dev/stdout; compare gen_c02_loops with loops_ok in coq/model/IngestBridge.v"}, no_input=True)
     if not (ok_b and ok_c and val("AGR") == "true" and val("SAME") == "true" and val("WID") == "true"):
         m1 = re.search(r"Definition gen_on_span_cols.*?Definition gen_ffa_guard", gen2, re.S)
         m2 = re.search(r"Definition gen_on_entries_cols.*?gen_tsd_consumed[^\n]*", gen2, re.S)
@@ -501,7 +620,7 @@ def run_bridge(ck, pid):
                       "bridge_ok": val("BOK"), "unknown_statements": val("UNK"), "columns_ok": val("COK"), "details_ok": val("DOK"), "consumed_agree": val("AGR"), "same": val("SAME"), "width_check_and_id_producers": val("WID"),
                       "generated_columns": gen1[-3000:], "generated_on_span": (m1.group(0) if m1 else "")[:3000], "generated_on_entries": (m2.group(0) if m2 else "")[:2000],
                       "replay": "translate/gen_c02_columns /dev/stdout; translate/gen_goroutines_writer; compare with kind_fields / on_span_cols_model in coq/model"}, no_input=True)
-    ck.extra.setdefault("input_distribution", {})["bridge"] = {"services": 6, "bridge_ok": val("BOK"), "columns_ok": val("COK"), "details_ok": val("DOK")}
+    ck.extra.setdefault("input_distribution", {})["bridge"] = {"services": 6, "bridge_ok": val("BOK"), "columns_ok": val("COK"), "details_ok": val("DOK"), "loops_ok": val("LOK")}
 
 
 def cell_case_coq(c):
@@ -607,6 +726,9 @@ ERR_TEXTS = ["scripted insert failure", "write tcp ...: write: connection reset 
              "write tcp ...: write: broken pipe", "EOF", "unexpected EOF", "read tcp ...: i/o timeout", "context deadline exceeded",
              "dial tcp: lookup ...: i/o timeout", "code: 241, message: Memory limit (total) exceeded", "connection reset by peer",
              "handshake: clickhouse: connection refused"]
+
+
+STAMP_CLASS = {"u": "usual (2023)", "p": "before 1970", "e": "the epoch", "f": "far future (2100 / 2150 / 2255)"}
 
 
 def compress(rids):
@@ -815,7 +937,7 @@ def nontrivial2(c):
 
 def coverage_level2(ck, res):
     cases = res["cases"]
-    att, routes, opk, status, classes, errs = {}, {}, {}, {}, {}, {}
+    att, routes, opk, status, classes, errs, stamps = {}, {}, {}, {}, {}, {}, {}
     spy = {"request_calls": 0, "promises_failed": 0, "promises_ok": 0}
     distinct = set()
     for c in cases:
@@ -835,6 +957,10 @@ def coverage_level2(ck, res):
                     spy["promises_ok" if e.get("ok") else "promises_failed"] += 1
         for r in c.get("reqs") or []:
             routes[r["route"]] = routes.get(r["route"], 0) + 1
+            rejected = any(it.get("err") for it in (r.get("items") or []))
+            for ch in r.get("ts") or "":
+                k = "%s: %s%s" % (r["route"], STAMP_CLASS.get(ch, ch), " (body refused by the parser)" if rejected else "")
+                stamps[k] = stamps.get(k, 0) + 1
         for o in c["ops"]:
             opk[o["t"]] = opk.get(o["t"], 0) + 1
         for l in (c.get("obs") or []):
@@ -868,7 +994,7 @@ def coverage_level2(ck, res):
     ck.coverage["evaluations"] += len(cases)
     ck.coverage["distinct_nontrivial"] += len(distinct)
     ck.coverage["rule"] += ("HTTP scripts: the real PushStreamV2 (Loki JSON and snappy protobuf), PushV2 (Zipkin JSON), WriteStreamV2 (Prometheus remote write), OTLPPushV2 and PushProfileV2 (pprof, binary/octet-stream) handlers over five real services, RetryAttempts 0..3, "
-                            "1..4 pushes (one in ten with a body the parser rejects), 6..19 operations (push, PlanFlush, let a worker call Do, return of Do with success 2/5) then a drain; "
+                            "1..4 pushes (one in ten with a body the parser rejects; one stream / span / series in four dated before 1970, at the epoch or in 2100..2255), 6..19 operations (push, PlanFlush, let a worker call Do, return of Do with success 2/5) then a drain; "
                             "a failing INSERT returns one of 12 real socket / ClickHouse error texts; two scripted classes by case number: exhaust (2 in 10: every INSERT fails until every push is answered, "
                             "every second one with a connection-reset text) and bigspans (1 in 10: a Zipkin push above the parser's 1 MiB chunk threshold, 3-4 chunks, first INSERT fails), repeat (1 in 10: the same Loki series pushed 2-3 times over a real per-script "
                             "announcement cache -- after the previous push was confirmed / while it is in flight / after its series INSERT failed for good); "
@@ -876,7 +1002,8 @@ def coverage_level2(ck, res):
                             "non-trivial = RetryAttempts >= 1, at least one failed INSERT and one answer; distinct by content. ")
     ck.extra.setdefault("input_distribution", {}).update({"http_retry_attempts": att, "http_routes": routes, "http_operation_kinds": opk,
                                                            "http_status_codes": status, "http_script_classes": classes,
-                                                           "http_insert_error_texts": errs, "http_request_calls_seen_by_wrapper": spy})
+                                                           "http_insert_error_texts": errs, "http_request_calls_seen_by_wrapper": spy,
+                                                           "http_timestamp_classes_per_stream_or_span": stamps})
     ck.add_samples([{"attempts": c.get("attempts"), "reqs": [{"route": r["route"], "items": r["items"]} for r in c["reqs"]][:2],
                      "ops": c["ops"][:8], "obs": (c.get("obs") or [])[:8]} for c in cases[:2]], limit=5)
 
